@@ -373,50 +373,97 @@ func (u *Unit) ExpandPredicate(e ast.Expr) ast.Expr {
 	return u.expandPureCall(c, 0, true)
 }
 
-// InlinedCalls lists, for every call of u to a novel helper of the same
-// package, the calls made by that helper's own body (one level, plus one more
-// level of novel helpers), each placed at the location of the helper call in u.
-func (u *Unit) InlinedCalls() []*Call {
-	if u.inlDone {
-		return u.inl
-	}
-	u.inlDone = true
+// inlinedCalls lists, for every call of u to a transparent helper (a novel
+// function of the same package that is only ever called, see markTransparent),
+// the calls made by that helper — its own and, recursively, those of the
+// transparent helpers it calls — each placed at the location of the helper call
+// in u, so that dominance, guards and held locks are judged in the caller.
+func (u *Unit) inlinedCalls(own []*Call) []*Call {
 	var out []*Call
-	var add func(site *Call, h *Unit, depth int)
-	add = func(site *Call, h *Unit, depth int) {
-		for _, hc := range h.Calls() {
-			c2 := *hc
-			c2.Loc = site.Loc
-			c2.Inlined = site
-			c2.Deferred = site.Deferred || hc.Deferred
-			c2.Go = site.Go || hc.Go
-			out = append(out, &c2)
-			if depth < 2 && hc.Callee != nil && IsNovel(hc.Callee) {
-				if h2 := u.Prog.UnitOf(hc.Callee); h2 != nil && h2 != h && h2.Pkg == u.Pkg {
-					add(site, h2, depth+1)
-				}
-			}
-		}
-	}
-	for _, cl := range u.Calls() {
-		if cl.Callee == nil || !IsNovel(cl.Callee) {
+	for _, cl := range own {
+		if cl.Callee == nil || !u.Prog.transparent[cl.Callee.Origin()] {
 			continue
 		}
 		h := u.Prog.UnitOf(cl.Callee)
-		if h == nil || h.Pkg != u.Pkg || h == u.Root() {
+		if h == nil || h == u.Root() {
 			continue
 		}
-		add(cl, h, 1)
+		for _, hc := range h.Calls() {
+			c2 := *hc
+			c2.Loc = cl.Loc
+			if hc.Inlined != nil {
+				c2.Inlined = cl
+			} else {
+				c2.Inlined = cl
+			}
+			c2.Deferred = cl.Deferred || hc.Deferred
+			c2.Go = cl.Go || hc.Go
+			out = append(out, &c2)
+		}
 	}
-	u.inl = out
 	return out
 }
 
-// CallsX: the unit's own calls followed by the calls of the novel helpers it calls.
-func (u *Unit) CallsX() []*Call {
-	in := u.InlinedCalls()
-	if len(in) == 0 {
-		return u.Calls()
+// CallsX is Calls (kept for callers written before Calls itself became transparent).
+func (u *Unit) CallsX() []*Call { return u.Calls() }
+
+// markTransparent decides which novel functions are transparent: declared in
+// the repository, not in the baseline, called at least once and never used as
+// a value. Their units are taken out of the list the rules iterate over (what
+// they do is judged in their callers) but stay resolvable.
+func (p *Prog) markTransparent() {
+	p.transparent = map[*types.Func]bool{}
+	if BaselineOff || len(novelFuncs) == 0 {
+		return
 	}
-	return append(append([]*Call(nil), u.Calls()...), in...)
+	callPos := map[token.Pos]bool{}
+	for _, pk := range p.All {
+		for _, f := range pk.Syntax {
+			ast.Inspect(f, func(n ast.Node) bool {
+				if c, ok := n.(*ast.CallExpr); ok {
+					switch fn := ast.Unparen(c.Fun).(type) {
+					case *ast.Ident:
+						callPos[fn.Pos()] = true
+					case *ast.SelectorExpr:
+						callPos[fn.Sel.Pos()] = true
+					}
+				}
+				return true
+			})
+		}
+	}
+	calls, values := map[*types.Func]int{}, map[*types.Func]int{}
+	for _, pk := range p.All {
+		for id, o := range pk.TypesInfo.Uses {
+			f, ok := o.(*types.Func)
+			if !ok || !novelFuncs[f.Origin()] {
+				continue
+			}
+			if callPos[id.Pos()] {
+				calls[f.Origin()]++
+			} else {
+				values[f.Origin()]++
+			}
+		}
+	}
+	for f := range novelFuncs {
+		if novelFuncs[f] && calls[f] > 0 && values[f] == 0 {
+			p.transparent[f] = true
+		}
+	}
+	if len(p.transparent) == 0 {
+		return
+	}
+	var keep []*Unit
+	for _, u := range p.Units {
+		r := u.Root()
+		if r.Obj != nil && p.transparent[r.Obj.Origin()] {
+			continue
+		}
+		keep = append(keep, u)
+	}
+	p.Units = keep
 }
+
+// IsTransparent: see markTransparent.
+func (p *Prog) IsTransparent(f *types.Func) bool { return f != nil && p.transparent[f.Origin()] }
